@@ -1348,6 +1348,18 @@ namespace sim
 	} // aux
 
 	void SIMULATOR_DECL dump_network_graph(simulation const& s, const std::string& filename);
+
+#ifdef LIBSIMULATOR_VERIF
+	// verification hook (off unless LIBSIMULATOR_VERIF is defined): a callback
+	// invoked by simulation::run() between event executions. phase 0: right
+	// after one handler has run. phase 1: at the top of the next round after
+	// at least one timer fired (its handler is queued but has not run yet).
+	namespace verif
+	{
+		using step_hook_t = void (*)(simulation&, int phase, void* user);
+		void SIMULATOR_DECL set_step_hook(step_hook_t hook, void* user);
+	}
+#endif
 }
 
 #ifdef _MSC_VER
